@@ -29,7 +29,7 @@ ASSUMPTIONS = ["clusters are never locked (the statement's exception)",
                "a held clone is queried only while the function it was cloned from is still the current binding"]
 COMPONENTS = {"real": ["twosigma.memento version computation, hash rules, generation counter, version cache", "CPython exec/compile/linecache"],
               "stub": ["generated user program", "uuid4, clock"]}
-REACH = ["programs_with_mutual_recursion", "events:define_builtin", "queries", "query_points", "via:unregistered", "via:clone", "via:held-clone", "events:redefine", "events:mutate",
+REACH = ["programs_with_declared_dependencies", "programs_with_mutual_recursion", "events:define_builtin", "queries", "query_points", "via:unregistered", "via:clone", "via:held-clone", "events:redefine", "events:mutate",
          "events:rebind", "events:swap_kind", "queried_with_undefined_callee"]
 
 QVIAS = ["attr", "attr", "qn", "clone:ignore_result", "clone:force_local", "clone:partial", "clone:context", "unregistered"]
@@ -173,7 +173,9 @@ def _version(fn, via):
         if via == "unregistered":
             if fn.explicit_version is not None:
                 return MementoFunction(fn.fn, version=fn.explicit_version, register_fn=False).version()
-            return MementoFunction(fn.fn, version_salt=fn._constructor_provided_version_salt, register_fn=False).version()
+            return MementoFunction(fn.fn, version_salt=fn._constructor_provided_version_salt,
+                                   dependencies=sorted(fn.required_dependencies) if fn.required_dependencies else None,
+                                   register_fn=False).version()
         raise core.HarnessError(via)
     except core.HarnessError:
         raise
@@ -261,6 +263,23 @@ def live_events(events, prog):
             out.append({"op": "cell", "module": ev["module"], "text": ev["folded"], "unit": ev["unit"]})
         else:
             out.append(ev)
+    # a caller that declares dependencies=[...] can only be defined after them: when the callee's last definition
+    # is later than the caller's (the callee was redefined), the from-scratch program defines the callee first
+    for _ in range(len(out) * len(out) + 1):
+        moved = False
+        pos = {tuple(e["unit"]): i for i, e in enumerate(out)}
+        for nd in prog["nodes"]:
+            for c in nd["calls"]:
+                if c["form"] == "declared":
+                    a, b = pos.get(("n", nd["id"])), pos.get(("n", c["to"]))
+                    if a is not None and b is not None and a < b:
+                        out.insert(a, out.pop(b))
+                        moved = True
+                        break
+            if moved:
+                break
+        if not moved:
+            break
     return out
 
 
@@ -274,6 +293,8 @@ def execute(case):
     try:
         if any(c.get("back") for ev in case["events"] if ev.get("prog") for n in ev["prog"]["nodes"] for c in n["calls"]):
             bump("programs_with_mutual_recursion")
+        if any(c["form"] == "declared" for ev in case["events"] if ev.get("prog") for n in ev["prog"]["nodes"] for c in n["calls"]):
+            bump("programs_with_declared_dependencies")
         ev_a, _ = life_a(case)
         answers = {e["i"]: e["answers"] for e in ev_a if "answers" in e}
         for e in ev_a:
